@@ -4,13 +4,13 @@ CLAIMED = {
             'render + parse returns the same text and content, rendering is a fixpoint; three styles stored identically; '
             'normalisation idempotent and equal to a reference normaliser; COMMENT ON literal and expression pass-through read back '
             'by an independent DDL reader. Decided for ALL code points of the class at once by the solver, bounded by K.',
-            'DESIGN.md 6/C13', 'Four open findings (regions) are excluded while their witnesses fail: see known_findings.json.'),
+            'DESIGN.md 6/C13', 'Three open findings (regions) are excluded while their witnesses fail; a fourth (non-ASCII blank lines) was closed by fix 9e24c2b: see known_findings.json.'),
     'C09': ('All histories of D container operations (add / delete / typed add_* / rename, table-level add/delete of columns and indexes) '
             'from five operation menus over a universe with engineered name, alias, enum, group and reference clashes; an independent '
             'list-based reference model is compared after EVERY step (membership, order, name/alias lookup, back-pointers, rejected '
             'operations leave no trace). Path tree exhausted by CrossHair, z3 deciding feasibility of each operation-code branch.',
-            'DESIGN.md 6/C09', 'Open finding c09_rename_contained_table excludes histories from the first rename of a contained table on.'),
-    'C17': ('25 inconsistency cases (element kind x missing attribute / detached or mixed reference endpoints x route .sql/.dbml/.table1/'
+            'DESIGN.md 6/C09', 'Open finding c09_rename_contained_table suspends the name-index clauses after the first rename of a contained table; the delete_index defect found by this check was repaired (c0beb09).'),
+    'C17': ('39 inconsistency cases (element kind x missing attribute / detached or mixed reference endpoints x route .sql/.dbml/.table1/'
             '.get_refs) after a symbolic prefix of legal edits, with symbolic names: the documented exception class and nothing else.',
             'DESIGN.md 6/C17', ''),
     'C18': ('Every acyclic inline-reference graph over n tables (symbolic adjacency booleans) x every insertion order x reference kind: '
@@ -37,7 +37,7 @@ CLAIMED = {
             'K-character soups after 18 structural prefixes (empty input, BOM, comment, inside settings / type arguments / notes / '
             'reference comments ...): parsing raises only parse errors, pydbml.exceptions or SyntaxError, and every database that is '
             'returned renders (.dbml/.sql of the database and of every element) without raising.',
-            'DESIGN.md 6/C08', 'Three crashes named in the property statement were repaired by fix: commits (see known_findings.json).'),
+            'DESIGN.md 6/C08', 'Three crashes named in the property statement were repaired by fix: commits; open finding c08_huge_integer_default (an integer default of more than 4300 digits) lies outside the K-character bounds and is replayed as a pinned document (see known_findings.json).'),
     'C01': ('Scenario functions per grammar rule (column, table header/body, index, enum, reference, project/group/sticky, whole-document '
             'order and inline-vs-standalone equivalence) build the DBML text in a chosen surface spelling AND the expected content from '
             'the same symbolic arguments; the parsed database must equal the expected content exactly (nothing dropped, nothing extra). '
@@ -62,10 +62,10 @@ CLAIMED = {
             'tables, dangling table / column names in references, indexes and groups. Postconditions are IFF: the rule\'s error '
             'exactly when the rule is broken, otherwise a database holding both declarations.',
             'DESIGN.md 6/C06', 'Open finding c06_alias_ignores_schema.'),
-    'C10': ('All edit histories of depth D from a menu of 22 in-place edits (renames of tables / schemas / columns / enums / items, '
+    'C10': ('All edit histories of depth D from a menu of 29 in-place edits (renames of tables / schemas / columns / enums / items, '
             'type, flag, default, note, alias changes, reference kind / inline-ness / name / actions, added columns / indexes / items, '
             'removed indexes) on an API-built database; .dbml and .sql of the edited database and of its elements must equal those of a '
-            'database freshly rebuilt from the final plain content by an independent rebuild oracle.',
+            'database freshly rebuilt from the final plain content by an independent rebuild oracle; what the edits intend for the references (kind, inline-ness) and for the index list (order, which index a delete removes) is recorded independently of the model and compared as well.',
             'DESIGN.md 6/C10', ''),
     'C12': ('All eight documented entry points (constructor with str / Path / text file, PyDBML.parse, PyDBML().parse, parse_file with '
             'path string / Path / text file) on a text whose first character is symbolic over the BMP (BOM or not) plus a note hole: same '
